@@ -184,3 +184,32 @@ mod tests {
         assert!(result.is_err());
     }
 }
+
+#[cfg(feature = "verif")]
+impl ConnIdMapper {
+    pub fn verif_left(&self) -> &[u16] {
+        &self.left
+    }
+
+    pub fn verif_right(&self) -> &[u16] {
+        &self.right
+    }
+}
+
+#[cfg(feature = "verif")]
+impl ConnIdCounter {
+    pub const fn verif_from_counts(lid_count: Vec<usize>, rid_count: Vec<usize>) -> Self {
+        Self {
+            lid_count,
+            rid_count,
+        }
+    }
+
+    pub fn verif_lid_count(&self) -> &[usize] {
+        &self.lid_count
+    }
+
+    pub fn verif_rid_count(&self) -> &[usize] {
+        &self.rid_count
+    }
+}
